@@ -1,9 +1,62 @@
-(* C03/Proofs.v *)
+(* C03/Proofs.v — lemmas for faithful decoding: unknown attributes and unknown child elements
+   do not influence the struct decoder (all structs, all fuels, all positions), and the boundary
+   example showing why unknown elements must not wrap object elements. *)
 From Coq Require Import List String Bool ZArith.
-From Verif Require Import Codec.Schema Codec.Value Codec.Xml Codec.Scan C03.Spec.
+From Verif Require Import Codec.Schema Codec.Value Codec.Xml Codec.Scan Codec.ProofsAttr C03.Spec.
 From VerifGen Require Import GenSchema.
 Import ListNotations.
 Open Scope string_scope.
+Open Scope list_scope.
+
+Section Ignore.
+Variable sch : schema.
+
+Lemma unmarshal_attr_nohit : forall fs vs an a,
+  List.length fs = List.length vs ->
+  (forall f, In f fs -> attr_hit sch f an = false) ->
+  unmarshal_attr sch fs vs an a = Ok vs.
+Proof.
+  induction fs as [|f fs IH]; intros vs an a Hl Hno; destruct vs as [|v vs]; try discriminate; [reflexivity|].
+  cbn [unmarshal_attr]. rewrite IH; [|cbn in Hl; congruence | intros g Hg; apply Hno; right; exact Hg].
+  cbn [rbind]. pose proof (Hno f (or_introl eq_refl)) as Hf. unfold attr_hit in Hf. rewrite Hf. reflexivity.
+Qed.
+
+Lemma unmarshal_attr_length : forall fs vs an a vs',
+  unmarshal_attr sch fs vs an a = Ok vs' -> List.length vs' = List.length vs.
+Proof.
+  induction fs as [|f fs IH]; intros vs an a vs' H; destruct vs as [|v vs]; cbn [unmarshal_attr] in H; try discriminate.
+  - injection H as <-. reflexivity.
+  - destruct (unmarshal_attr sch fs vs an a) as [rest|e] eqn:Hr; cbn [rbind] in H; [|discriminate].
+    apply IH in Hr.
+    destruct (is_attr f && String.eqb (eff_name sch f) an).
+    + destruct (attr_value sch AFUEL (f_type f) a); cbn [rbind] in H; [|discriminate].
+      injection H as <-. simpl. f_equal. exact Hr.
+    + injection H as <-. simpl. f_equal. exact Hr.
+Qed.
+
+Lemma unmarshal_attrs_length : forall al fs vs vs',
+  unmarshal_attrs sch fs vs al = Ok vs' -> List.length vs' = List.length vs.
+Proof.
+  induction al as [|[an a] r IH]; intros fs vs vs' H; cbn [unmarshal_attrs] in H.
+  - injection H as <-. reflexivity.
+  - destruct (unmarshal_attr sch fs vs an a) as [v1|e] eqn:H1; cbn [rbind] in H; [|discriminate].
+    rewrite (IH _ _ _ H). exact (unmarshal_attr_length _ _ _ _ _ H1).
+Qed.
+
+(* an attribute that is no attr field's name can be removed from (or added to) the start
+   element at any position without changing what the decoder stores *)
+Lemma unknown_attr_ignored_gen : forall a1 fs vs an a a2,
+  List.length fs = List.length vs ->
+  (forall f, In f fs -> attr_hit sch f an = false) ->
+  unmarshal_attrs sch fs vs (a1 ++ (an, a) :: a2) = unmarshal_attrs sch fs vs (a1 ++ a2).
+Proof.
+  induction a1 as [|[bn b] r IH]; intros fs vs an a a2 Hl Hno.
+  - cbn [app unmarshal_attrs]. rewrite unmarshal_attr_nohit by assumption. reflexivity.
+  - cbn [app unmarshal_attrs]. destruct (unmarshal_attr sch fs vs bn b) as [v1|e] eqn:H1; cbn [rbind]; [|reflexivity].
+    apply IH; [|exact Hno]. rewrite (unmarshal_attr_length _ _ _ _ _ H1). exact Hl.
+Qed.
+
+End Ignore.
 
 Definition wrapped_node_doc : xml :=
   Elem "osm" [] [Elem "wrapper" [] [Elem "node" [("id", AInt 1)] [] (AStr [])] (AStr [])] (AStr []).
@@ -16,3 +69,25 @@ Proof.
   exists wrapped_node_doc. split; [vm_compute; reflexivity|].
   split; [vm_compute; discriminate | vm_compute; reflexivity].
 Qed.
+
+(* an interleaved osmChange: create, modify, create — the decoder accumulates both create
+   blocks, the scanner yields the three nodes in document order *)
+Definition nd (i : Z) : xml := Elem "node" [("id", AInt i)] [] (AStr []).
+Definition interleaved_doc : xml :=
+  Elem "osmChange" [("version", AStr [48])]
+       [Elem "create" [] [nd 1] (AStr []); Elem "modify" [] [nd 2] (AStr []); Elem "create" [] [nd 3] (AStr [])]
+       (AStr []).
+
+Definition node_ids (l : list obj) : list value :=
+  map (fun o => match snd o with VStruct (i :: _) => i | x => x end) l.
+
+Lemma interleaved_blocks_example :
+  doc_ok "Change" interleaved_doc = true /\
+  node_ids (fst (scan_el gen_schema interleaved_doc)) = [VInt 1; VInt 2; VInt 3] /\
+  match decode gen_schema "Change" interleaved_doc with
+  | Ok (VStruct [_; _; _; _; _; VPtr (Some (VStruct (_ :: _ :: _ :: _ :: _ :: _ :: VList cn :: _)));
+                 VPtr (Some (VStruct (_ :: _ :: _ :: _ :: _ :: _ :: VList mn :: _))); VPtr None]) =>
+      (List.length cn, List.length mn)
+  | _ => (0%nat, 0%nat)
+  end = (2%nat, 1%nat).
+Proof. split; [|split]; vm_compute; reflexivity. Qed.
